@@ -9,6 +9,8 @@ Section ManagerP.
   Notation clear := (clear dbapi closed).
   Notation clear_connection := (clear_connection dbapi closed).
   Notation sweep := (sweep dbapi closed).
+  Notation clone_track := (clone_track dbapi closed).
+  Notation gstep2 := (gstep2 dbapi closed).
 
   (* ---- association lists ---- *)
   Lemma aget_aset_same {A} (l : list (nat * A)) k v : aget (aset l k v) k = Some v.
@@ -472,5 +474,169 @@ Section ManagerP.
       specialize (Hc Hok1). unfold store at 2 in Hc. simpl in Hc. rewrite Hreg in Hc.
       unfold view in Hc. inversion Hc. auto.
     Qed.
+
+    (* ------------------------------------------------------------------------------------------
+       schedules that also contain "set execution options on the connection" steps (GOpt) *)
+    Lemma keys_aset {A} (l : list (nat * A)) c v k :
+      In k (map fst (aset l c v)) -> k = c \/ In k (map fst l).
+    Proof.
+      induction l as [|[k0 v0] l IH]; simpl.
+      - intros [H|[]]. left; auto.
+      - destruct (k0 =? c)%nat eqn:E; simpl.
+        + intros [H|H]; [left; auto | right; right; exact H].
+        + intros [H|H]; [right; left; exact H|]. destruct (IH H) as [H'|H']; [left; exact H' | right; right; exact H'].
+    Qed.
+
+    Lemma keys_filter {A} (p : nat * A -> bool) (l : list (nat * A)) k :
+      In k (map fst (filter p l)) -> In k (map fst l).
+    Proof.
+      intro H. apply in_map_iff in H as [x [E Hx]]. apply filter_In in Hx as [Hx _].
+      apply in_map_iff. exists x. split; assumption.
+    Qed.
+
+    Lemma aget_none_notin {A} (l : list (nat * A)) k : aget l k = None -> ~ In k (map fst l).
+    Proof.
+      induction l as [|[k0 v0] l IH]; simpl; [intros _ []|].
+      destruct (k0 =? k)%nat eqn:E; [discriminate|]. intros H [H1|H1].
+      - subst k0. rewrite Nat.eqb_refl in E. discriminate.
+      - exact (IH H H1).
+    Qed.
+
+    Lemma keys_clear G s k : In k (map fst (g_uows (clear G s))) -> In k (map fst (g_uows G)).
+    Proof.
+      unfold Manager.clear. destruct (aget (g_smap G) (ss_id s)); [|auto]. simpl.
+      intro H. unfold sweep, adel in H. apply keys_filter in H. apply keys_filter in H. exact H.
+    Qed.
+
+    Lemma keys_clear_connection G c k :
+      In k (map fst (g_uows (clear_connection G c))) -> In k (map fst (g_uows G)).
+    Proof.
+      unfold Manager.clear_connection. simpl. intro H. unfold sweep, adel in H.
+      apply keys_filter in H. apply keys_filter in H. exact H.
+    Qed.
+
+    Lemma keys_store G c st b k :
+      In k (map fst (g_uows (store G c st b))) -> k = c \/ In k (map fst (g_uows G)).
+    Proof.
+      unfold store. simpl. destruct b; [apply keys_aset | intro H; right; exact H].
+    Qed.
+
+    Lemma keys_register G s k :
+      In k (map fst (g_uows (register G s))) -> k = ss_conn s \/ In k (map fst (g_uows G)).
+    Proof.
+      unfold register. simpl. destruct (aget (g_uows G) (ss_conn s)); [intro H; right; exact H | apply keys_aset].
+    Qed.
+
+    Lemma keys_gstep g G s e k :
+      In k (map fst (g_uows (gstep g G s e))) -> k = ss_conn s \/ In k (map fst (g_uows G)).
+    Proof.
+      unfold Manager.gstep. destruct e as [objs ents assoc| | | |a].
+      - destruct (g_versioning g); intro H; apply keys_store in H as [H|H]; auto.
+        apply keys_register in H. exact H.
+      - intro H. apply keys_clear in H. apply keys_store in H. exact H.
+      - intro H. apply keys_clear in H. apply keys_clear_connection in H. apply keys_store in H. exact H.
+      - destruct (g_versioning g); intro H; apply keys_store in H as [H|H]; auto.
+        apply keys_register in H. exact H.
+      - intro H. apply keys_store in H. exact H.
+    Qed.
+
+    Lemma keys_clone_track G c k :
+      In k (map fst (g_uows (clone_track G c))) -> k = c \/ In k (map fst (g_uows G)).
+    Proof.
+      unfold Manager.clone_track. destruct (aget (g_uows G) c); [auto|].
+      destruct (rev _) as [|p l]; [auto|]. simpl. rewrite map_app, in_app_iff. simpl.
+      intros [H|[H|[]]]; auto.
+    Qed.
+
+    (* no unit of work is registered under a connection that shares the DB-API connection of s's *)
+    Definition keys_apart (s : sess) (G : gstate) : Prop :=
+      forall k, In k (map fst (g_uows G)) -> k = ss_conn s \/ dbapi k <> dbapi (ss_conn s).
+
+    Lemma clone_track_own_noop s G : keys_apart s G -> clone_track G (ss_conn s) = G.
+    Proof.
+      intro K. unfold Manager.clone_track. destruct (aget (g_uows G) (ss_conn s)) eqn:E; [reflexivity|].
+      assert (Hf : filter (fun p => negb (closed (fst p)) && (dbapi (fst p) =? dbapi (ss_conn s))%nat) (g_uows G) = []).
+      { apply aget_none_notin in E. unfold keys_apart in K. revert K E. generalize (g_uows G). intro l.
+        induction l as [|[k0 v0] l IH]; intros K E; simpl; [reflexivity|].
+        assert (Hk : k0 = ss_conn s \/ dbapi k0 <> dbapi (ss_conn s)) by (apply K; left; reflexivity).
+        destruct Hk as [Hk|Hk].
+        - exfalso. apply E. left. exact Hk.
+        - apply Nat.eqb_neq in Hk. rewrite Hk, andb_false_r. apply IH.
+          + intros k Hin. apply K. right. exact Hin.
+          + intro Hin. apply E. right. exact Hin. }
+      rewrite Hf. reflexivity.
+    Qed.
+
+    Lemma view_clone_track_other G s s' :
+      ss_conn s' <> ss_conn s -> view (clone_track G (ss_conn s')) s = view G s.
+    Proof.
+      intro Hne. unfold Manager.clone_track. destruct (aget (g_uows G) (ss_conn s')); [reflexivity|].
+      destruct (rev _) as [|p l]; [reflexivity|]. unfold view. simpl. f_equal. f_equal.
+      destruct (aget (g_uows G) (ss_conn s)) eqn:E.
+      - apply aget_app_some. exact E.
+      - rewrite aget_app_none by exact E. simpl.
+        destruct (ss_conn s' =? ss_conn s)%nat eqn:E2; [apply Nat.eqb_eq in E2; contradiction | reflexivity].
+    Qed.
+
+    Definition sched_ok2 (s : sess) (sched : list (sess * gev)) : Prop :=
+      forall s' x, In (s', x) sched -> owns s' /\ (s' = s \/ indep s s').
+
+    Definition mine2 (s : sess) (se : sess * gev) : bool :=
+      (ss_id (fst se) =? ss_id s)%nat && (ss_conn (fst se) =? ss_conn s)%nat.
+
+    Lemma mine2_spec s se : mine2 s se = true <-> fst se = s.
+    Proof.
+      unfold mine2. rewrite andb_true_iff, !Nat.eqb_eq. destruct se as [[i c] e], s as [i' c']. simpl.
+      split; [intros [-> ->]; reflexivity | intro H; inversion H; auto].
+    Qed.
+
+    Lemma keys_apart_step g s G s' x :
+      (s' = s \/ indep s s') -> keys_apart s G -> keys_apart s (gstep2 g G s' x).
+    Proof.
+      intros Hrel K k Hk.
+      assert (Hsub : k = ss_conn s' \/ In k (map fst (g_uows G))).
+      { destruct x as [e|]; simpl in Hk; [apply keys_gstep in Hk | apply keys_clone_track in Hk]; exact Hk. }
+      destruct Hsub as [->|Hin]; [|apply K; exact Hin].
+      destruct Hrel as [->|[_ [_ [Hd _]]]]; [left; reflexivity | right; intro E; apply Hd; symmetry; exact E].
+    Qed.
+
+    Lemma gstep2_smap_ok g G s x : owns s -> smap_ok conn_of G -> smap_ok conn_of (gstep2 g G s x).
+    Proof.
+      intros Hco Hok. destruct x as [e|]; simpl; [apply gstep_smap_ok; assumption|].
+      unfold Manager.clone_track. destruct (aget (g_uows G) (ss_conn s)); [exact Hok|].
+      destruct (rev _); exact Hok.
+    Qed.
+
+    Theorem non_interference2 g s : forall sched G G',
+      owns s -> sched_ok2 s sched -> smap_ok conn_of G -> smap_ok conn_of G' ->
+      keys_apart s G -> keys_apart s G' -> view G s = view G' s ->
+      view (fold_left (fun G se => gstep2 g G (fst se) (snd se)) sched G) s =
+      view (fold_left (fun G se => gstep2 g G (fst se) (snd se)) (filter (mine2 s) sched) G') s.
+    Proof.
+      induction sched as [|[s' x] sched IH]; intros G G' Hs Hok HG HG' HK HK' Hv; simpl; [exact Hv|].
+      assert (Hrest : sched_ok2 s sched) by (intros s0 e0 Hin; apply (Hok s0 e0); right; exact Hin).
+      destruct (Hok s' x (or_introl eq_refl)) as [Hown' Hrel].
+      destruct (mine2 s (s', x)) eqn:M.
+      - apply mine2_spec in M. simpl in M. subst s'. simpl.
+        apply IH; try assumption; try (apply gstep2_smap_ok; assumption);
+          try (apply keys_apart_step; [left; reflexivity | assumption]).
+        destruct x as [e|]; simpl.
+        + apply gstep_view_det; assumption.
+        + rewrite !clone_track_own_noop by assumption. exact Hv.
+      - destruct Hrel as [->|Hi]; [assert (mine2 s (s, x) = true) by (apply mine2_spec; reflexivity); congruence|].
+        apply IH; try assumption; [apply gstep2_smap_ok; assumption | apply keys_apart_step; [right; exact Hi | exact HK] |].
+        destruct x as [e|]; simpl.
+        + rewrite (step_of_other_session_is_invisible conn_of g G s s' e Hi HG Hown' Hs). exact Hv.
+        + rewrite view_clone_track_other; [exact Hv|]. destruct Hi as [_ [Hc _]]. intro E. apply Hc. symmetry. exact E.
+    Qed.
+
+    Theorem interleaving_equals_solo_run2 g s sched :
+      owns s -> sched_ok2 s sched ->
+      view (grun2 dbapi closed g sched) s = view (grun2 dbapi closed g (filter (mine2 s) sched)) s.
+    Proof.
+      intros Hs Hok. unfold grun2.
+      apply non_interference2; try assumption; try (intros sid c []); try (intros k []); reflexivity.
+    Qed.
+
   End NonInterference.
 End ManagerP.
